@@ -41,21 +41,26 @@ DECIDED = {
             "(m_skip_one_dispatch_n7: nested! hands the nested skipper d-1, restores d, rejects at d == 1 without recursing) and for "
             "every container entry of the serde deserializer (m_depth_*), one step for all budgets d => nesting <= 254 for every input."),
     "C02": ("Differential harnesses real scanner vs. RFC 8259 reference recogniser: Ok <=> the reference accepts, and the consumed length "
-            "equals the reference's - strings (scalar path on all buffers <= 8, block path by window), numbers (validating skipper and "
-            "fully-parsing scanner), literals, colon, trailing characters, whitespace; containers inductively (array/object productions "
-            "and value dispatch against an abstract nested recogniser E given as a symbolic table, for every E); the serde seq "
-            "state machine and end_seq/end_map; raw-number capture."),
-    "C03": ("Only the packed node metadata: kind, index-to-header and length survive Meta::pack_dom_node/unpack_dom_node for every "
-            "len and every idx that fits the 29-bit field; the region idx >= 2^29 is known finding F6. The parser->visitor event stream "
-            "and the arena/read API are NOT decided (see outside_the_claim)."),
-    "C05": ("format_string on every byte string <= 6 (8 thorough) equals the specified escaping with exact length and all writes inside the "
+            "equals the reference's - strings (scalar path on all buffers <= 8; block path by window in the thorough tier), numbers (validating "
+            "skipper on all buffers <= 5/6/8 and across a 32-byte chunk edge; fully-parsing scanner <= 7), literals, colon, trailing characters, "
+            "whitespace; containers inductively (array/object productions and value dispatch of the validating skipper, and the object "
+            "production of both DOM drivers with their whole event stream, against an abstract nested recogniser E given as a symbolic "
+            "table, for every E); the serde seq state machine and end_seq/end_map; raw-number capture; the deferred UTF-8 verdict "
+            "is reported by check_utf8_final."),
+    "C03": ("The packed node metadata (kind, index-to-header, length survive Meta::pack_dom_node/unpack_dom_node for every len and every idx "
+            "that fits the 29-bit field; idx >= 2^29 is known finding F6); the parser->visitor event stream of the object production of "
+            "both DOM drivers (member order, duplicates, counts handed to visit_object_end) for every nested recogniser E; the raw-number "
+            "span handed to the visitor by both drivers. The array drivers and the arena/read API are NOT decided (see outside_the_claim)."),
+    "C05": ("format_string on every byte string <= 3 (4 and 6 thorough) equals the specified escaping with exact length and all writes inside the "
             "6n+35 window; the three escape tables for all 256 bytes; check_cross_page; non-finite floats -> null for every bit pattern; "
-            "the Compound comma/colon/indent machine on a fixed shape (compact and pretty); a writer failing after k bytes makes "
-            "to_writer fail and leaves a prefix."),
+            "the reserve/commit protocol of BufferedWriter under short writes and of io::BufWriter (pending bytes reach the inner writer "
+            "first)."),
     "C07": ("Integers: every digit string of 1..12, 19 and 20 digits (13..20 thorough) with and without '-' yields the exact u64/i64 "
             "with the right classification or a float exactly when it does not fit (expected value computed in u128); -0 is the float "
             "negative zero; grammar and stop index of the fully-parsing scanner on all byte strings <= 7; exponent scanner saturation; "
-            "power-of-ten tables; Clinger fast path for fixed exponents and 20/16-bit significands; SSE simd_str2int == scalar."),
+            "power-of-ten tables; Clinger fast path for fixed exponents and 20/16-bit significands; SSE simd_str2int == scalar for "
+            "need <= 8 (9 thorough); of the big-decimal fallback the two kernels within reach: Decimal::try_add_digit never writes outside "
+            "the digit buffer, Decimal::round is round-half-even on every trimmed decimal of <= 6 digits."),
     "C08": ("Raw numbers: deserialize_rawnumber (bare and quoted) captures exactly the span the number grammar delimits and rejects "
             "everything else; the validating number skipper == grammar; non-finite floats -> null; the integer clause by reduction: "
             "every digit string itoa can emit is read back exactly (C07 integer harnesses), itoa's contract trusted."),
@@ -65,14 +70,17 @@ DECIDED = {
             "classifier on all 32-byte blocks; ESCAPED_TAB; the skip-only decoder end to end (scalar <= 8, block path by window); the "
             "borrowed branch of the borrow-or-copy decoder."),
     "C10": ("Skippers reduced to contracts, walkers proved against the reference lookup given those contracts: escaped-bit kernels for "
-            "all inputs; one 64-byte step of the bitmap container skipper from an arbitrary carry state (16-byte windows); the "
-            "zero-padded tail on all buffers <= 8; the trusting string skipper on every well-formed literal <= 8; token search; "
-            "checked array/object walkers + final skip == reference lookup (first duplicate wins, span exact, not-found only for a "
-            "missing key/index) for every nested recogniser E; prefix_xor native == fallback."),
-    "C12": ("One step of the lazy array driver from every (first, position) == the array iteration grammar for every element recogniser "
-            "E; the iterator latch: after an error or the end every later call yields None (one step from an arbitrary state)."),
+            "all inputs; the zero-padded tail of the bitmap container skipper on all buffers <= 8 (one 64-byte step from an arbitrary carry "
+            "state by 16-byte windows in the thorough tier); the trusting string skipper on every well-formed literal <= 8 and across a "
+            "32-byte block edge (carry between blocks, and from the block loop into the scalar tail); token search (scalar and block path); "
+            "checked array/object walkers + final skip == reference lookup (first duplicate wins, span exact, not-found only for a missing "
+            "key/index) for every nested recogniser E; prefix_xor native == fallback."),
+    "C12": ("One step of the lazy array driver and of the lazy object driver from every (first, position) == the iteration grammar for every "
+            "element recogniser E (escape-free keys); the iterator latch: after an error (including the up-front invalid-UTF-8 error) or the "
+            "end every later call yields None (one step from an arbitrary state); the unchecked iterators' string skipper across block edges."),
     "C13": ("Partial: skip_one returns the exact span and escape status (what LazyValue captures); OwnedLazyValue built from raw text of "
-            "every JSON value class (From<LazyValue>, new) reports the same type/bool/null answers and never reaches unreachable!()."),
+            "every JSON value class (From<LazyValue>, new) reports the same type/bool/null answers and never reaches unreachable!(); a failed "
+            "as_array_mut/as_object_mut probe leaves a raw value untouched; (thorough) taking the cached decoding out of a LazyRaw empties the cache."),
     "C14": ("The C02/C10 harnesses read in the other direction: whenever the validating skipper / checked walkers / checked iterator "
             "driver return Ok(span), the reference accepts exactly that span and everything traversed before it."),
     "C17": ("(a) every vector primitive of every backend file (sse2.rs, v256.rs, v512.rs as selected on this target; avx2.rs and v128.rs "
@@ -81,9 +89,10 @@ DECIDED = {
             "sonic-number's x86_64 backend equals the fallback under the callers' precondition; (c) the rest of the code is "
             "backend-independent text, so equality of observable results follows by congruence."),
     "C18": ("Both publish-once caches under every two-reader interleaving at atomic-step granularity, including spurious weak-CAS "
-            "failure: every read returns the one cached decoding (never null/dangling), every decoding ever created ends with no "
-            "outstanding reference (explicit ledger for the Arc<String> cache; CBMC's use-after-free/double-free/dealloc-layout "
-            "checks for both)."),
+            "failure. Inner::parse_from: every read returns the one cached decoding, every decoding ever created ends with no outstanding "
+            "reference (explicit ledger), and without the ledger the real frees pass CBMC's dealloc-layout/double-free/use-after-free "
+            "checks. LazyRaw::load: every load returns the decoding that is cached (never null/dangling) and the cell holds exactly it "
+            "(frees cut, see stubs)."),
     "C20": ("Error::syntax reports offset == index and exactly the line/column of that offset for every input <= 6 and every index, "
             "without panicking in the snippet window arithmetic; Parser::error clamps to the document length for both readers "
             "(including a cursor inside the 64-byte padding); classify() yields NotFound only for the four lookup codes; the stream "
@@ -99,12 +108,14 @@ OUTSIDE = {
             "stack *size* per frame (only the nesting bound is decided)"],
     "C02": ["UTF-8 validation (simdutf8 is a trusted dependency; the deferred-error plumbing is not decided)", "the in-place DOM string decoder "
             "and the copying decoder's escape branch end to end (kernels only)", "finiteness of floats (C07's float tiers are outside)",
-            "parse_array/parse_object(2) bodies (the DOM drivers; only the validating skipper family and the serde seq machine are decided)",
+            "parse_array/parse_array2 bodies (the array DOM drivers; the object drivers are decided)",
             "MapAccess::next_key_seed, enum framing", "inputs whose deciding bytes are farther apart than the window / N"],
-    "C03": ["the parser->visitor event stream", "DocumentVisitor, arena layout, back-pointer header, read API (as_ref2, slices)",
-            "everything but Meta packing: the arena half did not fit in CBMC (DESIGN.md section 3)"],
-    "C05": ["arbitrary value families (derive code is not explored)", "itoa/ryu digit generation", "io::BufWriter and BytesMut writers "
-            "(heap-heavy; not decided by a solver here)", "MapKeySerializer", "strings >= 32 bytes (block path of format_string) in the quick tier",
+    "C03": ["the array DOM drivers parse_array/parse_array2 (recursion into the function under test made the harness time out)",
+            "DocumentVisitor, arena layout, back-pointer header, read API (as_ref2, slices): the arena half did not fit in CBMC (DESIGN.md section 3)",
+            "values of numbers (C07) and decoded strings (C09) inside the DOM"],
+    "C05": ["arbitrary value families (derive code is not explored)", "itoa/ryu digit generation", "the Compound comma/colon/indent machine "
+            "and a failing writer end to end (harnesses w_compound_shape / w_failing_writer ran out of memory)", "BytesMut writers", "MapKeySerializer",
+            "strings >= 32 bytes (block path of format_string: b_format_string_w28 needs 21 minutes and is not registered)",
             "the release-only over-read branch"],
     "C07": ["correct rounding of parse_floating_normal_fast (64x64->128 table product), Eisel-Lemire compute_float and the big-decimal "
             "fallback parse_long_mantissa: halfway cases, > 19 digits, subnormals are NOT covered", "typed narrowing by serde's primitive "
@@ -115,16 +126,17 @@ OUTSIDE = {
     "C10": ["unchecked walkers get_from_object/get_from_array end to end (their skippers are decided, the walkers are not)",
             "escaped keys", "JsonInput::from_subset / slice_ref re-attachment for Bytes/FastStr", "Value::pointer/get, OwnedLazyValue::get",
             "two interesting windows within one 64-byte block"],
-    "C12": ["parse_entry_lazy (object driver: needs the copying key decoder)", "unchecked iterators vs checked on well-formed input",
-            "carriers"],
+    "C12": ["keys with escapes (copying key decoder)", "unchecked iterators vs checked on well-formed input end to end", "carriers"],
     "C13": ["as_number/child access (whole from_str calls)", "verbatim emission through RawValueStrEmitter", "owned-lazy mutation histories "
-            "(heap vectors)", "as_array/as_object views (fixed by bc7bb48, demonstrated natively, not re-decided by a harness)"],
+            "(heap vectors)", "as_array/as_object views (fixed by bc7bb48, demonstrated natively, not re-decided by a harness)",
+            "that boxes of the owned-lazy cache are freed (recursive drop glue cut)"],
     "C14": ["get_many / get_by_schema walkers (PointerTree)", "prefix UTF-8 validation after the walk", "object iterator driver"],
     "C17": ["the neon backend (not this target)", "simdutf8's own runtime dispatch (trusted dependency)",
             "u8::gt is todo!() in sse2.rs/avx2.rs and has no caller",
             "the congruence step itself (the argument is on paper)"],
-    "C18": ["memory-ordering adequacy (model is sequentially consistent)", "three or more readers", "leak of a losing Box<Parsed> in "
-            "LazyRaw::load (no reference count to ledger; double free/use-after-free are checked)"],
+    "C18": ["memory-ordering adequacy (model is sequentially consistent)", "three or more readers", "release of the losing / cached "
+            "Box<Parsed> in LazyRaw::load and Drop for LazyRaw (recursive drop glue of the owned-lazy value type exhausts memory; cut)",
+            "LazyRaw::clone_lazyraw (recursive clone glue)"],
     "C20": ["that each specific error site passes the index a user would expect", "make_error/parse_line_col text re-parsing of visitor "
             "messages", "Display rendering"],
 }
